@@ -142,6 +142,8 @@ def finish_policies(g):
 def build_topology(g, prop):
     rng = g.rng
     tmpl = rng.choice(["chain", "chain", "fanin", "fanout", "diamond", "multi_src_out", "combiner", "sinkfanin", "parallel"])
+    if prop in ("C08", "C09", "C10", "C15", "C17") and rng.random() < 0.3:
+        tmpl = rng.choice(["contended_fanout", "contended_fanin"])
     if prop == "C16":
         tmpl = "combiner"
     if prop in ("C08", "C15") and tmpl in ("combiner", "sinkfanin") and rng.random() < 0.6:
@@ -225,6 +227,35 @@ def build_topology(g, prop):
                 g.edge(m, k)
             else:
                 g.edge(s, k)
+    elif tmpl == "contended_fanout":
+        # several workers finishing in the same instant compete for capacity-1 out-edges
+        s = g.source(n_items=rng.choice([6, 10, 16]))
+        s["iat"] = {"form": "callable", "vals": [rng.choice([0, 0, 0, 1, 2]) for _ in range(len(s["iat"].get("vals", [0] * 8)) or 8)], "tail": BIG}
+        s["blocking"] = True
+        m = g.machine()
+        m["wc"] = rng.choice([2, 2, 3, 4])
+        m["pdelay"] = {"form": "const", "vals": [rng.choice([1, 2, 0.5])]} if rng.random() < 0.7 else m["pdelay"]
+        m["setup"] = rng.choice([0, 0, 3])
+        e = g.edge(s, m, force="buffer")
+        e["cap"] = rng.choice([2, 3, 4])
+        e["delay"] = 0
+        for _ in range(rng.choice([2, 2, 3])):
+            k = g.chaos_consumer() if rng.random() < 0.4 else g.sink()
+            eo = g.edge(m, k, force="buffer")
+            eo["cap"] = 1
+            eo["delay"] = rng.choice([0, 0, 2, 5])
+    elif tmpl == "contended_fanin":
+        # items become available on several in-edges in the same instant
+        m = g.machine()
+        gap = rng.choice([1, 2])
+        for i in range(rng.choice([2, 2, 3])):
+            s = g.source(n_items=rng.choice([4, 8, 12]))
+            s["iat"] = {"form": "const", "vals": [gap]} if rng.random() < 0.6 else s["iat"]
+            s["blocking"] = True
+            e = g.edge(s, m, force="buffer")
+            e["delay"] = rng.choice([0, 0, gap, 2 * gap])
+            e["cap"] = rng.choice([1, 2])
+        end(m)
     elif tmpl == "combiner":
         n_ing = rng.choice([1, 1, 2, 3])
         recipe = [1] + [rng.choice([1, 1, 2, 3]) for _ in range(n_ing)]
